@@ -40,17 +40,18 @@ def leaf_text(v):
 TEXT = {"root": root_text, "imp": imp_text, "leaf": leaf_text}
 
 
-def graph(max_steps):
-    """Run TLC on Cache.tla, dump the labelled state graph, return (init, nodes{id: obs}, edges{id: [(label, arg, target)]}, stats)."""
+def graph(max_steps, module="Cache", controls=("CacheTransparent.cfg",)):
+    """Run TLC on <module>.tla, dump the labelled state graph, return (init, nodes{id: obs}, edges{id: [(label, arg, target)]}, stats).
+    `controls`: configurations of the same module that MUST end in an invariant violation (the reference / the pre-repair machine bite)."""
     d = tempfile.mkdtemp(prefix="cachegraph-", dir=scratch())
-    cfg = os.path.join(d, "Cache.cfg")
-    with open(os.path.join(SPEC, "Cache.cfg")) as f:
+    cfg = os.path.join(d, module + ".cfg")
+    with open(os.path.join(SPEC, module + ".cfg")) as f:
         txt = re.sub(r"MaxSteps = \d+", "MaxSteps = %d" % max_steps, f.read())
     with open(cfg, "w") as f:
         f.write(txt)
-    r = tlcrun.run_tlc("Cache", cfg, workers=4, extra=["-dump", "dot,actionlabels", os.path.join(d, "g")])
-    # design-level: the reference Transparent must be violated by the machine (D8), as a control that the reference bites
-    neg = tlcrun.run_tlc("Cache", "CacheTransparent.cfg", workers=2, allow_violation=True)
+    r = tlcrun.run_tlc(module, cfg, workers=4, extra=["-dump", "dot,actionlabels", os.path.join(d, "g")])
+    # design-level controls: e.g. the reference Transparent must be violated by the machine (D8), as a control that the reference bites
+    neg = [tlcrun.run_tlc(module, c, workers=2, allow_violation=True) for c in controls]
     dot = open(os.path.join(d, "g.dot")).read()
     nodes, edges = {}, {}
     for m in re.finditer(r'^(-?\d+) \[label="((?:[^"\\]|\\.)*)"', dot, re.M):
@@ -63,8 +64,9 @@ def graph(max_steps):
         edges.setdefault(m.group(1), []).append((mm.group(1), mm.group(2) or "", m.group(2)))
     init = [k for k, v in nodes.items() if v["n"] == 0]
     if len(init) != 1:
-        raise tlcrun.MachineryFailure("Cache graph: expected one initial state, got %d" % len(init))
-    return init[0], nodes, edges, {"states": r.distinct, "generated": r.generated, "transparent_violated_in_machine": neg.violated}
+        raise tlcrun.MachineryFailure("%s graph: expected one initial state, got %d" % (module, len(init)))
+    return init[0], nodes, edges, {"states": r.distinct, "generated": r.generated, "transparent_violated_in_machine": neg[0].violated,
+                                   "controls_violated": [x.violated for x in neg]}
 
 
 def paths_from(init, nodes, edges, all_paths):
@@ -234,6 +236,179 @@ def replay(job):
     return [{"name": " ; ".join("%s(%s)" % (a, b) if b else a for a, b in path), "trace": trace, "origin": "det"}]
 
 
+# ------------------------------------------------------------------ the compiled error hints (.pgec), HintCache.tla
+H_ROOT = 'import "imp.pg";\nS: "a" imp.N "c" | "b" imp.N "d"%s;\n'
+H_IMP = 'N: "n"%s;\n'
+H_KINDS = ("lr", "glr")
+H_PROBES = ("a n d", "b n c", "a n n", "b d", "a n c")
+
+
+def h_root_text(v):
+    return H_ROOT % "".join(' | "r%d" "r%d"' % (i, i) for i in range(1, v + 1))
+
+
+def h_imp_text(v):
+    return H_IMP % "".join(' | "i%d"' % i for i in range(1, v + 1))
+
+
+def h_hints_text(v):
+    return "a n d\n:::\nafter a-n comes c (examples v%d)\n=====\nb n c\n:::\nafter b-n comes d (examples v%d)\n" % (v, v)
+
+
+H_TEXT = {"root": h_root_text, "imp": h_imp_text}
+_fresh_hints = {}
+
+
+def _canon_hints(h):
+    return json.dumps(sorted([list(k), v] for k, v in (h or {}).items()))
+
+
+def fresh_hints(real, kind, vers, hver):
+    """the hints a parser of this kind carries when the directory holds no cache file at all; vers = (root, imp) versions"""
+    key = (kind,) + tuple(vers) + (hver,)
+    if key not in _fresh_hints:
+        c = tempfile.mkdtemp(prefix="freshh-", dir=scratch())
+        try:
+            for fn, v in zip(("root", "imp"), vers):
+                with open("%s/%s.pg" % (c, fn), "w") as f:
+                    f.write(H_TEXT[fn](v))
+            with open(c + "/root.pge", "w") as f:
+                f.write(h_hints_text(hver))
+            with real.quiet():
+                g = real.Grammar.from_file(c + "/root.pg")
+                p = (real.GLRParser if kind == "glr" else real.Parser)(g)
+            _fresh_hints[key] = _canon_hints(p.error_hints)
+        finally:
+            shutil.rmtree(c, ignore_errors=True)
+    return _fresh_hints[key]
+
+
+def hint_replay(job):
+    """Replay one path of HintCache.tla on a real directory.  Returns the trace [{act, arg, reply, pst, writer}] and, for every construction,
+    what the parser says about the probe inputs (hint texts), so that a report shows the user-visible difference."""
+    from . import real
+    import itertools
+    import parglare.parser as P
+
+    path = job["path"]
+    d = tempfile.mkdtemp(prefix="hcache-", dir=scratch())
+    ver = {"root": 0, "imp": 0}
+    hver = 0
+
+    def vers():
+        return (ver["root"], ver["imp"])
+
+    def older():
+        return itertools.product(range(ver["root"] + 1), range(ver["imp"] + 1), range(hver + 1))
+    clock = 2
+    trace = []
+    try:
+        for fn, txt in (("root.pg", h_root_text(0)), ("imp.pg", h_imp_text(0)), ("root.pge", h_hints_text(0))):
+            with open(os.path.join(d, fn), "w") as f:
+                f.write(txt)
+            os.utime(os.path.join(d, fn), (1, 1))
+        pgec, pgc = os.path.join(d, "root.pgec"), os.path.join(d, "root.pgc")
+        for step, (act, arg) in enumerate(path):
+            reply, probes = act, []
+            if act in ("DoConstruct", "DoCrash"):
+                crash = act == "DoCrash"
+
+                class J:      # parser.py's view of the json module: the dump of the compiled hints can die half way
+                    load = staticmethod(json.load)
+
+                    @staticmethod
+                    def dump(obj, f, crash=crash, step=step):
+                        data = json.dumps(obj)
+                        if crash:
+                            f.write(data[:[len(data) // 2, len(data) - 1, max(1, len(data) // 7)][step % 3]])
+                            f.flush()
+                            raise Crash()
+                        f.write(data)
+                orig = P.json
+                P.json = J
+                try:
+                    with real.guard(20), real.quiet():
+                        g = real.Grammar.from_file(os.path.join(d, "root.pg"))
+                        p = (real.GLRParser if arg == "glr" else real.Parser)(g)
+                    sig = _canon_hints(p.error_hints)
+                    other = [k for k in H_KINDS if k != arg]
+                    if sig == fresh_hints(real, arg, vers(), hver):
+                        reply = "hints-fresh"
+                    elif any(sig == fresh_hints(real, k, vers(), hver) for k in other):
+                        reply = "hints-other-kind"
+                    elif any(sig == fresh_hints(real, k, v[:2], v[2]) for k in H_KINDS for v in older()):
+                        reply = "hints-stale"
+                    else:
+                        reply = "hints-unknown"
+                    for w in H_PROBES:
+                        try:
+                            with real.guard(10), real.quiet():
+                                p.parse(w)
+                            probes.append("ok")
+                        except real.parglare.SyntaxError as e:
+                            probes.append(e.hint or "-")
+                except Crash:
+                    reply = "crash"
+                except ValueError:      # json.JSONDecodeError: the constructor tripped over an undecodable .pgec
+                    reply = "error-undecodable"
+                except Exception as e:  # noqa: BLE001
+                    reply = "error-" + type(e).__name__
+                finally:
+                    P.json = orig
+                for fn in (pgec, pgc):      # a file written in this step carries the machine's clock
+                    if os.path.exists(fn) and os.path.getmtime(fn) > 1e6:
+                        os.utime(fn, (clock, clock))
+            elif act == "DoEdit":
+                ver[arg] += 1
+                with open(os.path.join(d, arg + ".pg"), "w") as f:
+                    f.write(H_TEXT[arg](ver[arg]))
+                os.utime(os.path.join(d, arg + ".pg"), (clock, clock))
+                reply = "edit"
+            elif act == "DoTouch":
+                os.utime(os.path.join(d, arg + ".pg"), (clock, clock))
+                reply = "touch"
+            elif act == "DoEditHints":
+                hver += 1
+                with open(os.path.join(d, "root.pge"), "w") as f:
+                    f.write(h_hints_text(hver))
+                os.utime(os.path.join(d, "root.pge"), (clock, clock))
+                reply = "edithints"
+            pst, writer = "absent", "-"
+            if os.path.exists(pgec):
+                content = open(pgec).read()
+                try:
+                    import ast
+
+                    sig = _canon_hints({ast.literal_eval(k): v for k, v in json.loads(content).items()})
+                    pst, writer = "complete", "?"
+                    for k in H_KINDS:
+                        for v in older():
+                            if sig == fresh_hints(real, k, v[:2], v[2]):
+                                writer = k
+                except ValueError:
+                    pst, writer = "prefix", "?"
+            trace.append({"act": act, "arg": arg, "reply": reply, "pst": pst, "writer": writer, "probes": probes})
+            clock += 1
+    finally:
+        shutil.rmtree(d, ignore_errors=True)
+    return [{"name": " ; ".join("%s(%s)" % (a, b) if b else a for a, b in path), "trace": trace, "origin": "det"}]
+
+
+def _check_hints_distinct(max_steps):
+    """the replay directory must give pairwise different hint tables for every (kind, versions), or staleness / the writer cannot be observed"""
+    from . import real
+    import itertools
+
+    sigs = {}
+    for k in H_KINDS:
+        for v in itertools.product(range(max_steps + 1), repeat=3):
+            if sum(v) <= max_steps:
+                sigs[(k,) + v] = fresh_hints(real, k, v[:2], v[2])
+    if len(set(sigs.values())) != len(sigs):
+        raise tlcrun.MachineryFailure("hint cache replay directory does not separate: %s" %
+                                      [(a, b) for a in sigs for b in sigs if a < b and sigs[a] == sigs[b]][:5])
+
+
 def roundtrip(job):
     """Persist: save/load round trip of one grammar's table (the 'all grammars' half of C12)."""
     from . import gen, real
@@ -295,6 +470,20 @@ def build(tier, seed):
     for i, tr in enumerate(traces):
         out.append({"name": tr["name"], "origin": "det", "verdict": v[i][2], "at": v[i][3],
                     "nontransparent": sorted([list(x) for x in v[i][4]]), "trace": tr["trace"]})
+    # the compiled error hints: the same two directions on HintCache.tla
+    _check_hints_distinct(p["max_steps"])
+    hinit, hnodes, hedges, hstats = graph(p["max_steps"], "HintCache", ("HintCacheTransparent.cfg", "HintCacheNegImports.cfg", "HintCacheNegPrefix.cfg"))
+    hpaths = paths_from(hinit, hnodes, hedges, p["all_paths"])
+    log("hint cache graph: %d states, %d transitions, %d paths to replay" % (len(hnodes), sum(len(x) for x in hedges.values()), len(hpaths)))
+    htraces = pool.flatten(pool.run_jobs("stage_cache", "hint_replay", [{"path": pth} for pth in hpaths], chunksize=8))
+    shards = tlcrun.write_shards(htraces, scratch() + "/hcachetrace", max_bytes=2_000_000, min_shards=8)
+    hrs = tlcrun.run_shards("HintCacheTrace", "HintCacheTrace.cfg", shards, procs=4, workers=4)
+    hv = {x[1]: x for r in hrs for x in r.verdicts}
+    if len(hv) != len(htraces):
+        raise tlcrun.MachineryFailure("HintCacheTrace: %d traces, %d verdicts" % (len(htraces), len(hv)))
+    hout = [{"name": tr["name"], "origin": "det", "verdict": hv[i][2], "at": hv[i][3], "nontransparent": sorted([list(x) for x in hv[i][4]]),
+             "trace": tr["trace"]} for i, tr in enumerate(htraces)]
+    log("hint cache paths replayed and validated in %.1fs" % t.s())
     # round trip over grammars
     fam = gen.WITNESSES + gen.family(3, 3, limit=120 if tier == "quick" else 3000, rng_seed=1212)
     rng = random.Random(8000009 * (seed + 1))
@@ -310,10 +499,12 @@ def build(tier, seed):
     if len(v2) != len(rt):
         raise tlcrun.MachineryFailure("Persist: %d cases, %d verdicts" % (len(rt), len(v2)))
     rtout = [{"name": c["name"], "origin": c["origin"], "clauses": sorted(v2[i][2]), "nbytes": c["nbytes"]} for i, c in enumerate(rt)]
-    stats = {"states": gstats["states"] + sum(r.distinct for r in rs + rs2), "generated": gstats["generated"] + sum(r.generated for r in rs + rs2),
-             "graph": gstats, "graph_states": len(nodes), "graph_transitions": sum(len(x) for x in edges.values()), "paths": len(paths)}
+    stats = {"states": gstats["states"] + hstats["states"] + sum(r.distinct for r in rs + rs2 + hrs),
+             "generated": gstats["generated"] + hstats["generated"] + sum(r.generated for r in rs + rs2 + hrs),
+             "graph": gstats, "graph_states": len(nodes), "graph_transitions": sum(len(x) for x in edges.values()), "paths": len(paths),
+             "hgraph": hstats, "hgraph_states": len(hnodes), "hgraph_transitions": sum(len(x) for x in hedges.values()), "hpaths": len(hpaths)}
     log("cache stage done in %.1fs" % t.s())
-    return {"traces": out, "roundtrip": rtout, "stats": stats}
+    return {"traces": out, "hint_traces": hout, "roundtrip": rtout, "stats": stats}
 
 
 def get(tier, seed):
